@@ -175,6 +175,10 @@ func opaqueKind(t types.Type) string {
 		case "Mutex", "RWMutex", "Once", "WaitGroup":
 			return "sync"
 		}
+	case "crypto/ecdsa":
+		if o.Name() == "PublicKey" {
+			return "ecdsa.PublicKey"
+		}
 	case "regexp":
 		if o.Name() == "Regexp" {
 			return "regexp"
@@ -199,6 +203,8 @@ func zeroOpaque(kind string) value {
 		return reflVal{}
 	case "regexp":
 		return hostRegexp{}
+	case "ecdsa.PublicKey":
+		return hostPubKey{}
 	}
 	panic("zeroOpaque " + kind)
 }
